@@ -497,6 +497,19 @@ def run_calc(res, rng, model, steps):
             prev.pop(0)
     # the long-lived calculator must agree with one built now from the same point
     try:
+        # G: with parameters parked at the 1e-6/1e6 bounds some state frequencies fall to ~1e-18 and the likelihood is
+        # dominated by rounding-level transition probabilities (see C02), so two correct evaluations that differ in
+        # the last bit of an input can differ by many log units. The shadow check above is immune (identical
+        # arithmetic); this cross-calculator comparison is made at a moderate point reached by one more change.
+        xm = []
+        for i, v in enumerate(calc.last_values):
+            if lo[i] < 0:  # log-scaled ratio parameters
+                xm.append(float(min(3.0, max(-3.0, v))))
+            elif hi[i] <= 10:  # lengths
+                xm.append(float(min(2.0, max(0.01, v))))
+            else:
+                xm.append(float(min(5.0, max(0.2, v))))
+        calc(xm)
         lf.update_from_calculator(calc)
         uninstall()
         v_long = calc.testfunction()
@@ -509,7 +522,8 @@ def run_calc(res, rng, model, steps):
         v_lf = float(lf.lnL)
         res.evals += 1
         res.count("long-lived-vs-new-calculator")
-        if not (close(v_long, v_new, 1e-10) and close(v_long, v_lf, 1e-10)):
+        # inputs of the new calculator are re-derived (exp/log round trip), i.e. equal to ~1 ulp, not bit-identical
+        if not (close(v_long, v_new, 1e-8) and close(v_long, v_lf, 1e-8)):
             res.witness("C07/calculator/long-lived-calculator-differs-from-new-one", model=model, long=v_long, new=v_new, lf=v_lf)
     except Exception as e:  # noqa: BLE001
         res.witness(exc_mechanism("C07/calculator/update_from_calculator", e), model=model)
